@@ -141,6 +141,17 @@ def _(lm):
     lm.case("an_absent_entry_gets_this_row", lambda ex: ([z3.Not(has_before), is_first], z3.If(has_before, stored_before, r) == first))
 
 
+def canaries(pr):
+    def wrong_target(pr):
+        f, w = _fr.detail_writer(pr)
+        cells = [x for x in w.cells if x[0] == 12] if w is not None else []
+        return [A.bvc("canary", "link", "acquired_lot_timestamp_links_to_the_taxable_event", len(cells) == 1 and cells[0][1].startswith(f"{_fr.TX}({_fr.EV}, "), _fr.REL)]
+
+    def overwrite(pr):
+        f, w = _fr.detail_writer(pr)
+        return [A.bvc("canary", "link", "year_entry_is_overwritten", w is not None and any(s[0].startswith("self.__tax_sheet_year_2_row[") for s in w.stores), _fr.REL)]
+    return [("lot_cell_linked_to_event_must_fail", wrong_target), ("year_map_plain_assignment_must_fail", overwrite)]
+
 MANIFEST_ENTRY = {
     "category": "other",
     "text": ("Link contracts discharged over the AST of rp2_full_report.py: the three In-Out writers store row_index + 1 for exactly the element they just "
